@@ -321,6 +321,7 @@ type World struct {
 	yields   []*yieldRec
 	ys       yieldState
 	kmHold   *kmHold
+	avoidHash []byte // adversary: prefer certificates for another block than this one (the honest lock)
 	stimAny  bool  // a clock advance is in progress (real timers of any node may fire)
 	stimNode *Node // the node whose main loop is being handed an election trigger / a sync right now
 }
